@@ -501,6 +501,24 @@ func main() {
 				map[string]interface{}{"kind": "hash-and-sign", "msg": hexs(msg), "sha256": hexs(dg[:]), "sk": k, "H": hexs(H.Marshal()), "sig": hexs(sgb), "neg": hexs(ngb)})
 		}
 
+		// ---- Sign = ScalarMult(H(m), sk) with the real 256-bit key, and a random unreduced 256-bit scalar, against
+		// the model of curve.go's Jacobian double-and-add + MakeAffine (~30 s of vm_compute per case)
+		if inst < 1 || (thorough && inst < 3) {
+			ks := []*big.Int{skv}
+			if thorough {
+				ks = append(ks, new(big.Int).SetBytes(rng.Bytes(32)))
+			}
+			for _, k := range ks {
+				out := new(bn256.G1).ScalarMult(H, k).Marshal()
+				if k == skv && !bytes.Equal(out, hb) {
+					viol("C14/sign:not-scalar-mult", "Sign(sk, m) differs from ScalarMult(HashToPoint(m), sk)", map[string]interface{}{"sk": skv.String(), "msg": hexs(msg)})
+				}
+				res.Count("scalar-mult:256-bit", fmt.Sprintf("%d/mul/%s", inst, k.String()), true)
+				cs.Add(fmt.Sprintf("(MulCase %s %s %s)", hx.CoqHex(H.Marshal()), zs(k), hx.CoqHex(out)),
+					map[string]interface{}{"kind": "scalar-mult", "H": hexs(H.Marshal()), "k": k.String(), "result": hexs(out), "msg": hexs(msg)})
+			}
+		}
+
 		// ---- public-key candidates (verified against the honest signature)
 		Q := g2(pkb)
 		var pc []cand
@@ -516,6 +534,27 @@ func main() {
 			if rb, T := twistPointOutsideG2(rng); rb != nil {
 				padd("subgroup:twist-point-outside-G2", rb)
 				padd("subgroup:pk+cofactor-point", new(bn256.G2).Add(Q, T).Marshal())
+				// the cofactor 2p - r = 13 * 7369 * (239-bit): points of small order
+				cof := new(big.Int).Sub(new(big.Int).Lsh(fp, 1), order)
+				for _, n := range []int64{13, 7369} {
+					Tn := new(bn256.G2).ScalarMult(T, new(big.Int).Div(cof, big.NewInt(n)))
+					if len(Tn.Marshal()) == 1 {
+						continue
+					}
+					padd(fmt.Sprintf("subgroup:order-%d-point", n), Tn.Marshal())
+					padd(fmt.Sprintf("subgroup:pk+order-%d-point", n), new(bn256.G2).Add(Q, Tn).Marshal())
+					// under such a key not even the identity signature may verify
+					var okI bool
+					func() {
+						defer func() { recover() }()
+						okI = groupsig.VerifySig(groupsig.ByteToPublicKey(Tn.Marshal()), msg, *groupsig.DeserializeSign(make([]byte, 64)))
+					}()
+					res.Count(fmt.Sprintf("pk:subgroup:order-%d-point:identity-sig:accepted=%v", n, okI), fmt.Sprintf("%d/ord%d/%x", inst, n, Tn.Marshal()), true)
+					if okI {
+						viol("C14/subgroup:small-order-key", "the identity signature verifies under a small-order twist point used as public key",
+							map[string]interface{}{"pk": hexs(Tn.Marshal()), "order": n, "msg": hexs(msg)})
+					}
+				}
 			}
 		}
 		padd("identity", make([]byte, 128))
